@@ -108,6 +108,37 @@ class Sem(TL.Eval):
             return ("seqresult",)
         return super().abstract(o)
 
+    def fold(self, f):
+        """see target_lang.Eval.fold: what the step evaluates before its accumulator (for
+        all rounds, outermost first), then the initial value, then what it evaluates after"""
+        marker = ("acc", tagstr(f.acc.tag))
+        saved_abs, saved_execs = self.abstract, self.execs
+        pos = {}
+        self.execs = _Timed(self)
+
+        def abstract2(o):
+            if o is f.acc:
+                if "i" in pos:
+                    raise TL.NotInFragment("fold step evaluates its accumulator twice")
+                pos["i"] = len(self.execs)
+                return marker
+            return saved_abs(o)
+        self.abstract = abstract2
+        try:
+            self.expr(f.step)
+            step_execs = list(self.execs)
+        finally:
+            self.abstract, self.execs = saved_abs, saved_execs
+        if "i" not in pos:
+            raise TL.NotInFragment("fold step never evaluates its accumulator")
+        run = lambda e: ("stmts" if e[0] == "stmt" else e[0], e[1], e[2])
+        for e in step_execs[:pos["i"]]:
+            self.execs.append(run(e))
+        v = self.expr(f.init)
+        for e in step_execs[pos["i"]:]:
+            self.execs.append(run(e))
+        return ("foldval", tagstr(f.tag), v)
+
     def seq(self, lst):
         vals = []
         for x in lst:
